@@ -12,7 +12,7 @@ import (
 func init() {
 	register(&propDef{
 		ID:          "C08",
-		Explanation: "Ownership and value-identity rules for the exporter's sequence number and header bookkeeping, decided on SSA: (1) seqNumber has type uint32 (wrap-around is the type's) and is written only by the constructor (0) and by the one function that builds and writes IPFIX messages; (2) in that function the sequence number handed to CreateIPFIXMsg is F0 (the field at entry, plain or atomic load) on the non-data edge and F0 + set.GetNumberOfRecords() on the edge guarded by set.GetSetType() == Data, and the field is updated to exactly that value (atomic.AddUint32 or a plain store of the same sum) - templates never advance it, the header is built from the post-increment value; (3) CreateIPFIXMsg forwards its parameters unmodified: SetSequenceNum(seqNumber), SetObsDomainID(obsDomainID), SetExportTime(uint32(exportTime.Unix())), SetVersion(10); the export time is time.Now() evaluated in the send function at the call; the observation domain is ExportingProcess.obsDomainID, written only by the constructor from the caller's ObservationDomainID; (4) exactly one Write per call, outside any loop, given the whole built slice; the success return is Write's count on the edge where err == nil and count == len(slice); (5) imported from C14: no ExportingProcess field (e.g. a cached message buffer) is shared unsynchronised between the refresher goroutine and the API, which would let a refresh overwrite a message between build and Write. Not decided: the running equality over a whole session (follows by induction from the decided step), failed sends. Later additions: sender and stamping helper are separate roles (a helper may build the message, called exactly once, returning the builder's result); the header length equals the buffer written (C02's assembly rule). Round-six additions: every modification of the sequence number in the send function is under the data-set guard.",
+		Explanation: "Ownership and value-identity rules for the exporter's sequence number and header bookkeeping, decided on SSA: (1) seqNumber has type uint32 (wrap-around is the type's) and is written only by the constructor (0) and by the one function that builds and writes IPFIX messages; (2) in that function the sequence number handed to CreateIPFIXMsg is F0 (the field at entry, plain or atomic load) on the non-data edge and F0 + set.GetNumberOfRecords() on the edge guarded by set.GetSetType() == Data, and the field is updated to exactly that value (atomic.AddUint32 or a plain store of the same sum) - templates never advance it, the header is built from the post-increment value; (3) CreateIPFIXMsg forwards its parameters unmodified: SetSequenceNum(seqNumber), SetObsDomainID(obsDomainID), SetExportTime(uint32(exportTime.Unix())), SetVersion(10); the export time is time.Now() evaluated in the send function at the call; the observation domain is ExportingProcess.obsDomainID, written only by the constructor from the caller's ObservationDomainID; (4) exactly one Write per call, outside any loop, given the whole built slice; the success return is Write's count on the edge where err == nil and count == len(slice); (5) imported from C14: no ExportingProcess field (e.g. a cached message buffer) is shared unsynchronised between the refresher goroutine and the API, which would let a refresh overwrite a message between build and Write. Not decided: the running equality over a whole session (follows by induction from the decided step), failed sends. Later additions: sender and stamping helper are separate roles (a helper may build the message, called exactly once, returning the builder's result); the header length equals the buffer written (C02's assembly rule). Round-six additions: every modification of the sequence number in the send function is under the data-set guard. Round-seven addition (imported from C09): only the IPFIX and JSON send sites write to the connection, so no cached, already stamped message is sent again with a stale sequence number.",
 		Assume:      []string{"sync/atomic.AddUint32 returns the new value", "net.Conn.Write semantics", "time.Now is wall-clock"},
 		Run:         runC08,
 	})
